@@ -34,6 +34,11 @@
 //!                 slot already switched to `Case { fab_idx }` (one such handshake at a time; while it
 //!                 is pending E / S / e / s answer `busy`)
 //!     D           the held-back message is delivered: the pending handshake runs to completion
+//!     b<s>        a SubscribeRequest (wildcard events) arrives on CASE session s when the fail-safe timer
+//!                 is due (the timeout check runs first), then the reporter's purge phase runs
+//!     r<s>:<i>    RemoveFabric(i) is invoked on CASE session s while a subscription is being primed on s
+//!                 (the administrator holds back its StatusResponse to the priming report), then the
+//!                 priming completes, then the reporter's purge phase runs
 //! Output line: S <id> <status>@<snapshot>;...   (one per op; see `snapshot`)
 //! Other case kinds: H <id> (capacity constants), W <id> <k><p> <ops> (wire probe: like S, but
 //! requests are SENT even if the device has no usable session for them; short MRP intervals).
@@ -64,7 +69,8 @@ use rs_matter::dm::Node;
 use rs_matter::error::Error;
 use rs_matter::fabric::{Fabric, FabricPersist, Fabrics};
 use rs_matter::im::client::{ImClient, SubscribeOutcome, TxOutcome};
-use rs_matter::im::{AttrPath, CmdResp, GenericPath, IMStatusCode, InteractionModel, InteractionModelState};
+use rs_matter::im::client::SubscribePrimingChunk;
+use rs_matter::im::{AttrPath, CmdResp, EventPath, GenericPath, IMStatusCode, InteractionModel, InteractionModelState};
 use rs_matter::onboard::cac::RcacGenerator;
 use rs_matter::onboard::noc::NocGenerator;
 use rs_matter::persist::{CASE_RESUMPTION_KEY, PERSISTENT_SUBSCRIPTIONS_START};
@@ -261,6 +267,8 @@ enum Op {
     EstablishBegin(usize),
     ResumeBegin(u64),
     Finish,
+    SubscribeDue(u64),
+    SubscribeRemove(u64, u8),
 }
 
 fn parse_op(t: &str) -> Op {
@@ -289,6 +297,8 @@ fn parse_op(t: &str) -> Op {
         'e' => Op::EstablishBegin(n(0) as usize),
         's' => Op::ResumeBegin(n(0)),
         'D' => Op::Finish,
+        'b' => Op::SubscribeDue(n(0)),
+        'r' => Op::SubscribeRemove(n(0), n(1) as u8),
         _ => panic!("bad op {}", t),
     }
 }
@@ -801,6 +811,41 @@ async fn subscribe(ctl: &Matter<'_>, sid: u32, tag: u16) -> Result<(), Error> {
     Ok(())
 }
 
+/// the first half of `subscribe`: up to the first priming report (not yet answered);
+/// `events`: wildcard event paths instead of the attribute path
+async fn subscribe_start<'a>(ctl: &'a Matter<'a>, sid: u32, tag: u16, events: bool) -> Result<SubscribePrimingChunk<'a>, Error> {
+    let crypto = test_only_crypto();
+    let exchange = Exchange::initiate_for_session(ctl, &crypto, sid)?;
+    let path = AttrPath::from_gp(&GenericPath::new(Some(0), Some(CL_BASIC), Some(1)));
+    let paths = [path];
+    let epaths = [EventPath::from_gp(&GenericPath::new(None, None, None))];
+    let mut sender = exchange.subscribe_sender().await?;
+    loop {
+        match sender.tx().await? {
+            TxOutcome::BuildRequest(builder) => {
+                let b = builder.keep_subs(true)?.min_int_floor(tag)?.max_int_ceil(3600)?;
+                sender = if events {
+                    b.event_requests_from(&epaths)?.fabric_filtered(false)?.end()?
+                } else {
+                    b.attr_requests_from(&paths)?.fabric_filtered(false)?.end()?
+                };
+            }
+            TxOutcome::GotResponse(c) => return Ok(c),
+        }
+    }
+}
+
+/// the second half: answer the priming reports until the subscription is established
+async fn subscribe_finish(mut chunk: SubscribePrimingChunk<'_>) -> Result<(), Error> {
+    loop {
+        let _ = chunk.response()?;
+        match chunk.complete().await? {
+            SubscribeOutcome::NextChunk(next) => chunk = next,
+            SubscribeOutcome::Established(_) => return Ok(()),
+        }
+    }
+}
+
 async fn case_handshake(ctl: &Matter<'_>, fab: NonZeroU8, peer_node: u64, seed: u64) -> Result<(), Error> {
     // every handshake draws its own ephemeral material (initiator random, ephemeral node id,
     // first message counter): the test-only generator would repeat them
@@ -844,6 +889,17 @@ struct Hold {
     seen: u32,
     holding: bool,
     held: Vec<Vec<u8>>,
+}
+
+/// Holding back one message on a secured session: the peer's `skip + 1`-th datagram on the session
+/// whose (device-local) id is `sess`, and every retransmission of it (identical bytes).
+#[derive(Default)]
+struct EncHold {
+    armed: bool,
+    peer: u16,
+    sess: u16,
+    skip: u32,
+    captured: Option<Vec<u8>>,
 }
 
 type HandshakeFut<'f> = core::pin::Pin<Box<dyn core::future::Future<Output = Option<Result<(), Error>>> + 'f>>;
@@ -946,9 +1002,33 @@ fn run_incarnation(base: &Base, g: &mut Ghost, blobs: &BTreeMap<u16, Vec<u8>>, o
     }
 
     let hold: std::rc::Rc<RefCell<Hold>> = Default::default();
+    let enc_hold: std::rc::Rc<RefCell<EncHold>> = Default::default();
     let net = {
         let hold = hold.clone();
+        let enc_hold = enc_hold.clone();
         Net::new(move |src, dst, _idx, bytes| {
+            {
+                let mut e = enc_hold.borrow_mut();
+                // (datagrams of up to 36 bytes on a secured session are stand-alone acknowledgements -
+                // 8 header, 10 protocol header with the acknowledged counter, 16 tag -: they always pass)
+                if e.armed && src == e.peer && dst == DEV && bytes.len() > 36 && u16::from_le_bytes([bytes[1], bytes[2]]) == e.sess {
+                    match &e.captured {
+                        Some(c) => {
+                            if c.as_slice() == bytes {
+                                return e2e::Action::Drop;
+                            }
+                        }
+                        None => {
+                            if e.skip > 0 {
+                                e.skip -= 1;
+                            } else {
+                                e.captured = Some(bytes.to_vec());
+                                return e2e::Action::Drop;
+                            }
+                        }
+                    }
+                }
+            }
             let mut h = hold.borrow_mut();
             if h.armed {
                 if src == DEV && dst == h.peer {
@@ -1015,7 +1095,7 @@ fn run_incarnation(base: &Base, g: &mut Ghost, blobs: &BTreeMap<u16, Vec<u8>>, o
                 });
                 // the session a command travels on
                 let sess_name = match &op {
-                    Op::Arm(s) | Op::AddNoc(s, _) | Op::UpdNoc(s) | Op::Complete(s) | Op::Remove(s, _) | Op::Arm0(s) | Op::Revoke(s) | Op::Request(s, _) | Op::Subscribe(s) => Some(*s),
+                    Op::Arm(s) | Op::AddNoc(s, _) | Op::UpdNoc(s) | Op::Complete(s) | Op::Remove(s, _) | Op::Arm0(s) | Op::Revoke(s) | Op::Request(s, _) | Op::Subscribe(s) | Op::SubscribeDue(s) | Op::SubscribeRemove(s, _) => Some(*s),
                     _ => None,
                 };
                 let mut sid = 0u32;
@@ -1218,6 +1298,122 @@ fn run_incarnation(base: &Base, g: &mut Ghost, blobs: &BTreeMap<u16, Vec<u8>>, o
                                     "ok".into()
                                 }
                                 Err(_) => "fail".into(),
+                            }
+                        }
+                        Op::SubscribeDue(_) | Op::SubscribeRemove(..) if !matches!(mode, SessionMode::Case { .. }) => "fail".into(),
+                        Op::SubscribeDue(_) => {
+                            // the fail-safe timer is due when the request arrives: `handle` runs the
+                            // timeout check first, on behalf of this exchange
+                            dev.with_state(|state| state.verif_failsafe().verif_make_due());
+                            let tag = g.borrow().next_sub;
+                            let r = match e2e::with_timeout(5000, subscribe_start(cx, sid, tag, true)).await {
+                                Some(Ok(chunk)) => e2e::with_timeout(5000, subscribe_finish(chunk)).await.unwrap_or(Err(rs_matter::error::ErrorCode::RxTimeout.into())),
+                                Some(Err(e)) => Err(e),
+                                None => Err(rs_matter::error::ErrorCode::RxTimeout.into()),
+                            };
+                            if r.is_ok() {
+                                for _ in 0..2000 {
+                                    if subs_fn().iter().any(|x| x.3 == tag) {
+                                        break;
+                                    }
+                                    embassy_time::Timer::after(embassy_time::Duration::from_millis(1)).await;
+                                }
+                                g.borrow_mut().next_sub += 1;
+                                sub_inc = Some(sess_inc);
+                            }
+                            settle(&dev, cx, pending.is_some()).await;
+                            // the acceptance of a subscription wakes the reporter: its purge phase
+                            purge_fn();
+                            if std::env::var("C07_DEBUG").is_ok() {
+                                eprintln!("subscribe-due: {:?}", r.as_ref().map_err(|e| e.code()));
+                            }
+                            "ok".into()
+                        }
+                        Op::SubscribeRemove(_, idx) => {
+                            let tag = g.borrow().next_sub;
+                            // the device-local id of the session (what the administrator's datagrams carry)
+                            let dev_sess = {
+                                let gb = g.borrow();
+                                let id = gb.sess.iter().find(|(_, v)| Some(v.0) == sess_name).map(|(id, _)| *id);
+                                id.and_then(|id| dev.with_state(|state| state.verif_sessions().iter().find(|x| x.id() == id).map(|x| x.verif_snapshot().local_sess_id)))
+                            };
+                            match dev_sess {
+                                None => "fail".into(),
+                                Some(dev_sess) => {
+                                    // the SubscribeRequest passes, the StatusResponse to the priming report is held back
+                                    *enc_hold.borrow_mut() = EncHold { armed: true, peer: if which == 1 { CTL2 } else { CTL }, sess: dev_sess, skip: 1, captured: None };
+                                    let mut fut: HandshakeFut<'_> = Box::pin(e2e::with_timeout(10_000, async move {
+                                        let c = subscribe_start(cx, sid, tag, false).await?;
+                                        subscribe_finish(c).await
+                                    }));
+                                    let window = async {
+                                        for _ in 0..3000 {
+                                            if enc_hold.borrow().captured.is_some() {
+                                                return true;
+                                            }
+                                            embassy_time::Timer::after(embassy_time::Duration::from_millis(1)).await;
+                                        }
+                                        false
+                                    };
+                                    let mut outcome = select(fut.as_mut(), core::pin::pin!(window)).await;
+                                    if matches!(outcome, Either::Second(true)) {
+                                        // a request that was refused outright ends here, too (what was held back is
+                                        // then only an acknowledgement): the subscription is being primed only if the
+                                        // administrator is still waiting
+                                        if let Either::First(r) = select(fut.as_mut(), embassy_time::Timer::after(embassy_time::Duration::from_millis(30))).await {
+                                            let held = enc_hold.borrow_mut().captured.take();
+                                            if let Some(bytes) = held {
+                                                net.inject(if which == 1 { CTL2 } else { CTL }, DEV, &bytes);
+                                            }
+                                            outcome = Either::First(r);
+                                        }
+                                    }
+                                    match outcome {
+                                        Either::Second(true) => {
+                                            // the device's subscribe handler waits for the answer to its priming
+                                            // report: RemoveFabric on the same session
+                                            let idx = *idx;
+                                            let rep = invoke(cx, sid, CL_NOC, 10, false, &tlv(|w| w.u8(&TLVTag::Context(0), idx)), false).await;
+                                            let st = reply_class(rep, noc_class);
+                                            let held = {
+                                                let mut e = enc_hold.borrow_mut();
+                                                let c = e.captured.take();
+                                                let peer = e.peer;
+                                                *e = EncHold::default();
+                                                c.map(|c| (peer, c))
+                                            };
+                                            if let Some((peer, bytes)) = held {
+                                                net.inject(peer, DEV, &bytes);
+                                            }
+                                            let r = fut.await.unwrap_or(Err(rs_matter::error::ErrorCode::RxTimeout.into()));
+                                            if r.is_ok() {
+                                                for _ in 0..2000 {
+                                                    if subs_fn().iter().any(|x| x.3 == tag) {
+                                                        break;
+                                                    }
+                                                    embassy_time::Timer::after(embassy_time::Duration::from_millis(1)).await;
+                                                }
+                                                g.borrow_mut().next_sub += 1;
+                                                sub_inc = Some(sess_inc);
+                                            }
+                                            settle(&dev, cx, pending.is_some()).await;
+                                            purge_fn();
+                                            if std::env::var("C07_DEBUG").is_ok() {
+                                                eprintln!("subscribe-remove: {} then {:?}", st, r.as_ref().map_err(|e| e.code()));
+                                            }
+                                            st
+                                        }
+                                        other => {
+                                            if std::env::var("C07_DEBUG").is_ok() {
+                                                eprintln!("subscribe-remove: not primed: {}", match &other { Either::First(r) => format!("{:?}", r.as_ref().map(|x| x.as_ref().map_err(|e| e.code()))), Either::Second(b) => format!("window {}", b) });
+                                            }
+                                            *enc_hold.borrow_mut() = EncHold::default();
+                                            drop(fut);
+                                            settle(&dev, cx, pending.is_some()).await;
+                                            "fail".into()
+                                        }
+                                    }
+                                }
                             }
                         }
                         _ => String::new(),
@@ -1840,6 +2036,11 @@ fn branch_cases() -> Vec<(&'static str, &'static str)> {
         ("21", "A3,R3:2,T,E1,Q3:5,X,E1"),
         ("21", "E1,F,A3,U3,R2:2,Z2,E1,S1,X,E1,S1"),
         ("20", "A2,R3:1,X,E0,A3,R3:2,V3,E1"),
+        // a subscription that gets into the table after the removal broadcast of its fabric
+        ("21", "A1,N1:2,E2,b4,P,A5,N5:3,E3,O,X,O"),
+        ("21", "A1,N1:2,E2,b2,b3,b1,P,A5,N5:3,O"),
+        ("21", "r3:2,A1,N1:2,O,X,O"),
+        ("21", "E1,r4:2,r2:2,r3:1,r1:1,b9,r9:1"),
         // nothing to do
         ("20", "T,X,T,O,F,S1,E3,H3:5,G0,Z2,V3"),
     ]
@@ -2107,6 +2308,69 @@ fn generate(tier: &str, seed: u64) -> Vec<String> {
         }
         cases.push(format!("S {} 2{} {}", nid(), pase as u8, v.join(",")));
     }
+    // late-subscription stream: a subscription gets into the table AFTER the removal broadcast of its
+    // fabric - the request arrives when the fail-safe timer is due (b), or RemoveFabric of the session's own
+    // fabric is invoked while the subscription is being primed on that session (r) - and the reporter's
+    // purge phase is what drops it; then the index is handed out again.
+    let n_late = if thorough { 3000 } else { 300 };
+    for _ in 0..n_late {
+        let mut v: Vec<String> = Vec::new();
+        let extra = |rng: &mut Rng, v: &mut Vec<String>| {
+            for _ in 0..rng.below(3) {
+                match rng.below(4) {
+                    0 => v.push("F".into()),
+                    1 => v.push("O".into()),
+                    2 => v.push(format!("Q2:{}", 1 + rng.below(9))),
+                    _ => v.push("B2".into()),
+                }
+            }
+        };
+        if rng.chance(1, 2) {
+            // (b) fabric 3 is being commissioned, the administrator has a CASE session (4) on it
+            let root = 2 + rng.below(2);
+            v.push("A1".into());
+            v.push(format!("N1:{}", root));
+            v.push(format!("E{}", root));
+            extra(&mut rng, &mut v);
+            v.push(format!("b{}", rng.pick(&[4u64, 4, 4, 2, 3])));
+            extra(&mut rng, &mut v);
+            // the index is handed out again
+            v.push("P".into());
+            v.push("A5".into());
+            v.push("N5:3".into());
+            v.push("E3".into());
+            if rng.chance(1, 2) {
+                v.push("K6".into());
+            }
+            v.push("O".into());
+            if rng.chance(1, 2) {
+                v.push("X".into());
+                v.push("O".into());
+            }
+        } else {
+            // (r) RemoveFabric on the session the subscription is being primed on
+            let own = rng.chance(2, 3);
+            let (s, i) = *rng.pick(&[(3u64, 2u8), (3, 2), (2, 1)]);
+            let mut sess = s;
+            if rng.chance(1, 3) {
+                // a session from a real handshake instead of the preset one
+                v.push(format!("E{}", i - 1));
+                sess = 4;
+            }
+            extra(&mut rng, &mut v);
+            v.push(format!("r{}:{}", sess, if own { i } else { 3 - i }));
+            extra(&mut rng, &mut v);
+            // the index is handed out again (when it was the highest one)
+            v.push("A1".into());
+            v.push(format!("N1:{}", 2 + rng.below(2)));
+            v.push("O".into());
+            if rng.chance(1, 2) {
+                v.push("X".into());
+                v.push("O".into());
+            }
+        }
+        cases.push(format!("S {} 21 {}", nid(), v.join(",")));
+    }
     // random sequences of <= 25 operations; a light-weight picture of the node steers them
     // towards meaningful sessions and indices (the model decides what really happens)
     let n_rand = if thorough { 30000 } else { 3000 };
@@ -2145,7 +2409,7 @@ fn generate(tier: &str, seed: u64) -> Vec<String> {
         while (v.len() as u64) < len {
             let s = if rng.chance(1, 6) { 1 + rng.below(nsess + 1) } else if rng.chance(1, 3) { last_pase } else { 2 + rng.below(nsess.max(2) - 1) };
             let can_create = created < 9;
-            let t = match rng.below(53) {
+            let t = match rng.below(56) {
                 48 if can_create => {
                     nsess += 1;
                     created += 1;
@@ -2159,6 +2423,14 @@ fn generate(tier: &str, seed: u64) -> Vec<String> {
                     format!("s{}", 1 + rng.below(nrec))
                 }
                 51 | 52 => "D".to_string(),
+                53 | 54 if nsubs < 4 => {
+                    nsubs += 1;
+                    format!("b{}", s)
+                }
+                55 if nsubs < 4 => {
+                    nsubs += 1;
+                    format!("r{}:{}", s, rng.pick(&idxs))
+                }
                 0..=3 => format!("A{}", s),
                 4..=7 => format!("N{}:{}", s, rng.below(4)),
                 8 => format!("U{}", s),
